@@ -62,6 +62,7 @@ EXTRA = {
 # cost / memory model of the exact model (seconds on one core, K = 1), fitted to measurements
 # ----------------------------------------------------------------------------------------------
 def _c(L, Lc):
+    """one primitive quartet, one channel, general position"""
     return 0.01 + 5e-7 * L * L * (L + 1) ** 3 * (Lc + 1) ** 3
 
 
@@ -69,30 +70,30 @@ def _same(a, b):
     return a["coord"] == b["coord"]
 
 
+def _call_cost(q):
+    """one command-20 call on the four shell jsons q: about 20 % of the time of a K = M = 1 quartet goes into the
+    primitive recursions (x product of K), 80 % into contraction + horizontal recursions (x product of M)"""
+    k = [len(s["exps"]) for s in q]
+    m = [len(s["coeffs"][0]) for s in q]
+    l = [s["l"] for s in q]
+    c = _c(sum(l), l[2] + l[3]) * (0.2 * k[0] * k[1] * k[2] * k[3] + 0.8 * m[0] * m[1] * m[2] * m[3])
+    if all(_same(q[0], s) for s in q[1:]):
+        c *= 0.12
+    return c
+
+
+def _calls(ss):
+    return [_call_cost(ss), _call_cost([ss[0], ss[1], ss[0], ss[1]]), _call_cost([ss[2], ss[3], ss[2], ss[3]])]
+
+
 def est_cost(ss):
-    """ss: four shell jsons"""
-    k = [len(s["exps"]) for s in ss]
-    l = [s["l"] for s in ss]
-    main = k[0] * k[1] * k[2] * k[3] * _c(sum(l), l[2] + l[3])
-    allsame = all(_same(ss[0], s) for s in ss[1:])
-    if allsame:
-        main *= 0.2
-    sab = (k[0] * k[1]) ** 2 * _c(2 * (l[0] + l[1]), l[0] + l[1]) * (0.12 if _same(ss[0], ss[1]) else 1.0)
-    scd = (k[2] * k[3]) ** 2 * _c(2 * (l[2] + l[3]), l[2] + l[3]) * (0.12 if _same(ss[2], ss[3]) else 1.0)
-    return main + sab + scd
+    """ss: four shell jsons; the block itself and the two Schwarz blocks"""
+    return sum(_calls(ss))
 
 
 def heavy(ss):
-    """needs more than ~1.5 GB in the exact model"""
-    l = [s["l"] for s in ss]
-    if sum(l) >= 11:
-        return True
-    if sum(l) == 10 and l[2] + l[3] == 6:
-        return True
-    for a, b in ((0, 1), (2, 3)):
-        if l[a] + l[b] == 6 and not _same(ss[a], ss[b]):
-            return True
-    return False
+    """some single model call is estimated above 18 s, i.e. ~1.3 GB or more (about 70 MB per second of evaluation)"""
+    return max(_calls(ss)) > 18.0
 
 
 # ----------------------------------------------------------------------------------------------
@@ -123,6 +124,36 @@ def amplification(ss):
     return r ** (lc / 2.0) if r > 1.0 else 1.0
 
 
+def fcompare(impl, nested, tol_fn):
+    """lib.compare semantics (shape exactly, worst element by |impl - model| / tol), but the element test is done
+    on the correctly rounded double of the exact model value: |value| <= Schwarz scale, so that rounding (1e-16
+    relative) cannot move a ratio across 1 unless it is within 1e-9 of 1 - then the exact comparison decides."""
+    mshape = lib.shape_of(nested)
+    impl = np.asarray(impl)
+    if tuple(impl.shape) != mshape:
+        return {"kind": "shape", "impl_shape": list(impl.shape), "model_shape": list(mshape)}
+    if not np.all(np.isfinite(impl)):
+        return compare(impl, nested, tol_fn=tol_fn)
+    marr = np.array(nested, dtype=object)
+    mf = marr.astype(float)
+    worst = None
+    for idx in np.ndindex(*impl.shape):
+        t = tol_fn(idx)
+        diff = abs(float(impl[idx]) - mf[idx])
+        ratio = diff / t if t > 0 else (0.0 if diff == 0 else float("inf"))
+        if worst is None or ratio > worst[0]:
+            worst = (ratio, idx)
+    if worst is None or worst[0] < 0.999:
+        return None
+    if worst[0] <= 1.001:
+        return compare(impl, nested, tol_fn=tol_fn)
+    idx = worst[1]
+    xv, mv, t = float(impl[idx]), marr[idx], tol_fn(idx)
+    return {"kind": "value", "index": [int(i) for i in idx], "impl": repr(xv), "model": "%.17g" % float(mv),
+            "model_exact": str(mv) if len(str(mv)) < 400 else None,
+            "abs_diff": float(abs(Fraction(xv) - mv)), "tol": t}
+
+
 def _eval_block(model, case):
     from gbasis.integrals.electron_repulsion import ElectronRepulsionIntegral as ERI
 
@@ -138,7 +169,7 @@ def _eval_block(model, case):
     def tol(idx):
         return TOL_REL * math.sqrt(dab[idx[0]][idx[1]][idx[2]][idx[3]] * dcd[idx[4]][idx[5]][idx[6]][idx[7]])
 
-    d = compare(impl, res, tol_fn=tol)
+    d = fcompare(impl, res, tol)
     if d is not None and d.get("kind") == "value":
         d["rel_to_schwarz"] = d["abs_diff"] / d["tol"] * TOL_REL if d["tol"] > 0 else float("inf")
         d["amplification_estimate"] = amplification(ss) * 2.0 ** -53
@@ -200,7 +231,7 @@ def _eval_basis(model, case):
         i, j, k, l = idx
         return TOL_REL * (W[i][k] * W[j][l] if phys else W[i][j] * W[k][l])
 
-    d = compare(impl, res, tol_fn=tol)
+    d = fcompare(impl, res, tol)
     if d is not None and d.get("kind") == "value":
         d["rel_to_schwarz"] = d["abs_diff"] / d["tol"] * TOL_REL if d["tol"] > 0 else float("inf")
         d["amplification_estimate"] = max(amplification([basis[i] for i in q])
@@ -316,22 +347,30 @@ def gen_block(rng, ls, Ks, Ms, geom, kind="block"):
 
 
 def gen_block_capped(rng, ls, cap, kmax=3, mprob=0.3, geom=None, want_m2=False):
-    """largest affordable K (<= kmax, per shell) under the cost cap; geometry chosen so that the case is affordable"""
-    for attempt in range(40):
-        g = geom or rng.choice(GEOMS)
-        if geom is None and attempt > 10:
-            g = rng.choice(("coincident", "pairwise"))
-        kcap = kmax if attempt < 8 else max(1, kmax - (attempt - 8) // 4)
-        Ks = [rng.randint(1, kcap) for _ in range(4)]
-        if attempt >= 24:
-            Ks = [1, 1, 1, 1]
-        Ms = [2 if (rng.random() < mprob) else 1 for _ in range(4)]
-        if want_m2 and Ms == [1, 1, 1, 1]:
-            Ms[rng.randrange(4)] = 2
+    """K (<= kmax) and M (<= 2) per shell as large as the cost cap allows; geometry as asked or random"""
+    g = geom or rng.choice(GEOMS)
+    Ks = [rng.randint(1, kmax) for _ in range(4)]
+    Ms = [2 if (rng.random() < mprob) else 1 for _ in range(4)]
+    if want_m2 and Ms == [1, 1, 1, 1]:
+        Ms[rng.randrange(4)] = 2
+    while True:
         c = gen_block(rng, ls, Ks, Ms, g)
         if est_cost(c["s"]) <= cap:
             return c
-    return gen_block(rng, ls, [1, 1, 1, 1], [1, 1, 1, 1], "coincident")
+        # too expensive: drop a column, else a primitive, else move everything onto fewer centres
+        big_m = [i for i in range(4) if Ms[i] > 1]
+        big_k = [i for i in range(4) if Ks[i] > 1]
+        if big_m and (not want_m2 or len(big_m) > 1 or not big_k):
+            Ms[rng.choice(big_m)] = 1
+        elif big_k:
+            i = rng.choice(big_k)
+            Ks[i] -= 1
+        elif g not in ("pairwise", "coincident"):
+            g = "pairwise"
+        elif g == "pairwise":
+            g = "coincident"
+        else:
+            return c
 
 
 ALL_TUPLES = list(itertools.product(range(4), repeat=4))
@@ -339,7 +378,7 @@ ALL_TUPLES = list(itertools.product(range(4), repeat=4))
 
 def quick_blocks(rng):
     cases = []
-    cap = 25.0
+    cap = 18.0
     # all-s
     cases.append(gen_block(rng, (0, 0, 0, 0), [3, 2, 3, 1], [2, 1, 2, 1], "general"))
     cases.append(gen_block(rng, (0, 0, 0, 0), [1, 1, 1, 1], [1, 1, 1, 1], rng.choice(("coincident", "pairwise"))))
@@ -372,7 +411,7 @@ def quick_blocks(rng):
         cases.append(gen_block_capped(rng, t, cap, kmax=2, geom=g))
     # high totals
     for t in rng.sample([t for t in ALL_TUPLES if sum(t) in (8, 9) and t[2] + t[3] <= 4 and t[0] + t[1] <= 5], 2):
-        cases.append(gen_block_capped(rng, t, 40.0, kmax=1, geom=rng.choice(("general", "three"))))
+        cases.append(gen_block_capped(rng, t, 18.0, kmax=1, mprob=0.0, geom=rng.choice(("general", "three"))))
     t = rng.choice([(3, 3, rng.randint(0, 1), rng.randint(0, 2)), (rng.randint(0, 2), rng.randint(0, 1), 3, 3)])
     cases.append(gen_block(rng, t, [1, 1, 1, 1], [1, 1, 1, 1], "pairwise"))
     # uniform over all 256 tuples, affordable geometry
@@ -381,8 +420,8 @@ def quick_blocks(rng):
         t = rng.choice(ALL_TUPLES)
         if sum(t) >= 10:
             continue
-        c = gen_block_capped(rng, t, cap, kmax=2)
-        if est_cost(c["s"]) <= 40.0 and not heavy(c["s"]):
+        c = gen_block_capped(rng, t, 18.0, kmax=2)
+        if not heavy(c["s"]):
             cases.append(c)
             n += 1
     return cases
@@ -441,21 +480,16 @@ def ill_conditioned_list():
     return cases
 
 
-def basis_cost(shells):
+def basis_cost(shells, largest=False):
     js = [s.to_json() for s in shells]
-    tot = 0.0
-    for (i, j, k, l) in canonical_quartets(len(js)):
-        q = [js[i], js[j], js[k], js[l]]
-        kk = [len(s["exps"]) for s in q]
-        c = kk[0] * kk[1] * kk[2] * kk[3] * _c(sum(s["l"] for s in q), q[2]["l"] + q[3]["l"])
-        tot += c
-    return tot
+    cs = [_call_cost([js[i], js[j], js[k], js[l]]) for (i, j, k, l) in canonical_quartets(len(js))]
+    return max(cs) if largest else sum(cs)
 
 
 def gen_basis_cases(rng, tier):
     cases = []
     nb = 18 if tier == "quick" else 110
-    cap = 12.0 if tier == "quick" else 90.0
+    cap = 12.0 if tier == "quick" else 40.0
     i = 0
     while len(cases) < nb:
         i += 1
@@ -481,7 +515,11 @@ def gen_basis_cases(rng, tier):
         rng.shuffle(shells)
         cost = basis_cost(shells)
         withT = (i % 3 == 2)
-        if cost * (2 if withT else 1) > cap:
+        nfun = sum(s.nfun() for s in shells)
+        # the four-index array has nfun^4 exact rationals; the model's transform costs nrows * nfun^4 big products
+        if nfun > ((8 if tier == "quick" else 10) if withT else (12 if tier == "quick" else 16)):
+            continue
+        if cost * (2 if withT else 1) > cap or basis_cost(shells, largest=True) > 15.0:
             continue
         case = {"kind": "basis", "basis": [s.to_json() for s in shells], "T": None,
                 "notation": "physicist" if i % 2 else "chemist"}
